@@ -45,7 +45,7 @@ W = "tornado/wsgi.py"
 ENV = "WSGIContainer.environ"
 HR = "WSGIContainer.handle_request"
 
-REQUIRED_KEYS = ["REQUEST_METHOD", "SCRIPT_NAME", "PATH_INFO", "QUERY_STRING", "SERVER_NAME", "SERVER_PORT", "SERVER_PROTOCOL",
+REQUIRED_KEYS = ["REQUEST_METHOD", "REMOTE_ADDR", "SCRIPT_NAME", "PATH_INFO", "QUERY_STRING", "SERVER_NAME", "SERVER_PORT", "SERVER_PROTOCOL",
                  "wsgi.version", "wsgi.url_scheme", "wsgi.input", "wsgi.errors", "wsgi.multithread", "wsgi.multiprocess", "wsgi.run_once"]
 SAFE_METHODS = {"replace", "upper", "lower", "items", "split", "strip", "get", "startswith", "endswith", "partition", "rpartition", "lstrip", "rstrip"}
 SAFE_CALLS = {"str", "BytesIO", "escape.utf8", "utf8", "httputil.split_host_and_port", "split_host_and_port", "escape.url_unescape", "url_unescape", "len", "bool", "dict", "io.BytesIO"}
@@ -135,6 +135,11 @@ def rule_total(ck, fi):
     return n
 
 
+def _reach(cfg, node):
+    from ..x_paths import reachable_from
+    return reachable_from(cfg, node)
+
+
 def _len_fact(t, pol, base, need):
     if t.startswith("@"):
         return False
@@ -185,6 +190,7 @@ def rule_keys(ck, fi):
             ck.ob("C47.cgi-keys", fi, table[key], bool(pred(table[key])), "%s %s" % (key, what), construct="environ[%s] = %s" % (key, q.normalize_construct(table[key], q.local_names(fi.node))))
 
     prov("REQUEST_METHOD", lambda v: q.dotted(v) == req + ".method", "is the request method")
+    prov("REMOTE_ADDR", lambda v: q.dotted(v) == req + ".remote_ip", "is the peer address of the request")
     prov("QUERY_STRING", lambda v: q.dotted(v) == req + ".query", "is the raw query string")
     prov("SERVER_PROTOCOL", lambda v: q.dotted(v) == req + ".version", "is the request's HTTP version")
     prov("wsgi.url_scheme", lambda v: q.dotted(v) == req + ".protocol", "is the request protocol (http/https)")
@@ -310,20 +316,78 @@ def rule_response(ck):
             wh = [q.kwarg(w, "chunk") for w in q.calls(fi.node) if q.call_attr(w) == "write_headers"]
             n += 1
             ck.ob("C47.response", fi, c, len(bodyv) == 1 and any(q.dotted(w) == bodyv[0] for w in wh if w is not None), "the default Content-Length is the length of the body that is actually written")
-    # forwarding with add()
-    loops = [l for l in q.walk_body(fi.node) if isinstance(l, ast.For) and isinstance(l.target, ast.Tuple) and len(l.target.elts) == 2]
-    fw = 0
-    for l in loops:
-        tn = [e.id for e in l.target.elts if isinstance(e, ast.Name)]
-        for s in l.body:
-            if isinstance(s, ast.Assign) and isinstance(s.targets[0], ast.Subscript) and [q.dotted(s.targets[0].slice), q.dotted(s.value)] == tn:
+    # multimap-preserving transfer of the application's header list into the HTTPHeaders handed to write_headers
+    wh0 = [c for c in q.calls(fi.node) if q.call_attr(c) == "write_headers"]
+    ck.floor("C47.response", len(wh0), 1, "write_headers calls")
+    applists = {q.dotted(c.func.value) for _nd, c in appends if isinstance(c.func, ast.Attribute)}
+    if len(applists) != 1 or None in applists:
+        raise AnalysisError("C47.response: the application's header list (receiver of the default appends) is not a single variable")
+    L = applists.pop()
+    for w in wh0:
+        harg = w.args[1] if len(w.args) > 1 else q.kwarg(w, "headers")
+        H = q.dotted(harg) if harg is not None else None
+        if H is None:
+            # constructed inline: HTTPHeaders(<something>) directly in the call
+            n += 1
+            ck.ob("C47.response", fi, w, False, "the response headers must be an HTTPHeaders filled with add() per application header; an inline/dict-style construction collapses repeated names")
+            continue
+        binds = [a for a in q.walk_body(fi.node) if isinstance(a, (ast.Assign, ast.AnnAssign)) and H in q.assigned_paths(a)]
+        if not binds:
+            raise AnalysisError("C47.response: header object %s has no binding in handle_request" % H)
+        for a in binds:
+            v = a.value
+            if not (isinstance(v, ast.Call) and q.call_attr(v) == "HTTPHeaders"):
+                raise AnalysisError("C47.response: header object %s is not constructed as HTTPHeaders(..) (unknown idiom)" % H)
+            n += 1
+            ck.ob("C47.response", fi, a, not v.args and not v.keywords, "the response header map starts empty: HTTPHeaders(<pairs>) is dict-style initialisation (update/__setitem__), which keeps only the last of repeated names (Set-Cookie, Link) and skips add()'s validation")
+        fw = 0
+        for x in q.walk_body(fi.node):
+            if isinstance(x, ast.Call) and isinstance(x.func, ast.Attribute) and q.dotted(x.func.value) == H and x.func.attr in ("update", "setdefault", "__setitem__"):
                 fw += 1
-                ck.ob("C47.response", fi, s, False, "application headers must be forwarded with add(name, value): item assignment collapses repeated headers (Set-Cookie)")
-            for c in q.calls(s):
-                if q.call_attr(c) == "add" and [q.dotted(x) for x in c.args[:2]] == tn:
-                    fw += 1
-                    ck.ob("C47.response", fi, c, True, "every (name, value) of the application is forwarded with add()")
-    ck.floor("C47.response", fw, 1, "header forwarding statements")
+                n += 1
+                ck.ob("C47.response", fi, x, False, "%s.%s() replaces instead of appending: repeated application headers collapse" % (H, x.func.attr))
+            if isinstance(x, ast.Assign) and isinstance(x.targets[0], ast.Subscript) and q.dotted(x.targets[0].value) == H:
+                fw += 1
+                n += 1
+                ck.ob("C47.response", fi, x, False, "application headers must be forwarded with add(name, value): item assignment collapses repeated headers (Set-Cookie)")
+        loops = [l for l in q.walk_body(fi.node) if isinstance(l, ast.For) and isinstance(l.target, ast.Tuple) and len(l.target.elts) == 2 and q.dotted(l.iter) == L]
+        added = 0
+        for l in loops:
+            tn = [e.id for e in l.target.elts if isinstance(e, ast.Name)]
+            for st in l.body:
+                for c in q.calls(st):
+                    if q.dotted(c.func) == H + ".add":
+                        added += 1
+                        n += 1
+                        ck.ob("C47.response", fi, c, [q.dotted(a2) for a2 in c.args[:2]] == tn, "every (name, value) pair of the application's list is forwarded unchanged with add()")
+            # the add is unconditional inside the loop (no filtering of pairs)
+            for st in l.body:
+                if isinstance(st, (ast.If, ast.Try, ast.Continue, ast.Break)):
+                    n += 1
+                    ck.ob("C47.response", fi, st, False, "the forwarding loop must not filter or skip application headers")
+        if not added and not fw:
+            n += 1
+            ck.ob("C47.response", fi, w, False, "no loop over the application's header list %s forwards its pairs with %s.add() — the headers handed to write_headers do not carry every application header" % (L, H), construct="no add() forwarding loop")
+        # defaults were appended to the list before it was copied: the loop comes after the last default insertion
+        for l in loops:
+            for nd in fi.cfg.nodes_for(l.iter):
+                for and_, c in appends:
+                    n += 1
+                    ck.ob("C47.response", fi, c, nd.id in _reach(fi.cfg, and_), "the default %s is inserted before the list is copied into the response headers" % c.args[0].elts[0].value)
+    # body bytes: app chunks -> response list -> b"".join -> utf8 -> write_headers(chunk=...), nothing lossy in between
+    from ..x_exact import check_exact
+    for w in wh0:
+        ch = q.kwarg(w, "chunk") or (w.args[2] if len(w.args) > 2 else None)
+        if ch is None:
+            raise AnalysisError("C47.response: write_headers without chunk")
+        steps = check_exact(ck, "C47.response", fi, ch, ["response"], "response body handed to write_headers", passthrough={"escape.utf8": 0, "utf8": 0, "join": 0}, site=w)
+        for s_ in steps:
+            if s_.kind == "passthrough" and s_.note == "join":
+                n += 1
+                ck.ob("C47.response", fi, s_.node, isinstance(s_.node.func, ast.Attribute) and isinstance(s_.node.func.value, ast.Constant) and s_.node.func.value.value in (b"", ""), "the application's chunks are concatenated with an empty separator")
+    for nd, c in fi.cfg.find(lambda x: isinstance(x, ast.Call) and q.dotted(x.func) == "response.append" and x.args):
+        check_exact(ck, "C47.response", fi, c.args[0], [], "application chunk collected for the body", passthrough={"run_in_executor": None, "next": None}, site=c)
+        n += 1
     # status / reason / body plumbing
     wh = [c for c in q.calls(fi.node) if q.call_attr(c) == "write_headers"]
     ck.floor("C47.response", len(wh), 1, "write_headers calls")
@@ -359,6 +423,8 @@ def run(ck):
     fi = ck.func(W, ENV)
     n = rule_total(ck, fi)
     ck.floor("C47.environ-total", n, 1, "governed operations in environ")
+    from ..x_optint import check_truthiness
+    check_truthiness(ck, "C47.host-port", fi)
     n = rule_keys(ck, fi)
     ck.floor("C47.cgi-keys", n, 20, "environ table obligations")
     n = rule_headers(ck, fi)
@@ -425,11 +491,13 @@ def _dict_drop(key):
 MUTANTS = [
     ("undo the F27 repair: request.host.split(':') + bare int() (Host 'example.com:' -> ValueError)", _e(_undo_f27), ("C47.environ-total", "C47.host-port")),
     ("port default dropped: SERVER_PORT 'None' for a Host without port", _e(remove_stmts(lambda st: isinstance(st, ast.If) and "port is None" in _src(st.test))), "C47.host-port"),
+    ("port default applied by truthiness ('if not port': an explicit port 0 is replaced)", _e(replace_expr(lambda n: isinstance(n, ast.Compare) and _src(n) == "port is None", lambda n: parse_expr("not port"))), "C47.host-port"),
     ("port default ignores the protocol (always 80)", _e(replace_expr(lambda n: isinstance(n, ast.IfExp) and "https" in _src(n), lambda n: ast.Constant(value=80))), "C47.host-port"),
     ("SERVER_PORT passed as int", _e(_dict_value("SERVER_PORT", "port")), "C47.host-port"),
     ("PATH_INFO decoded with plus=True ('+' becomes space)", _e(replace_expr(lambda n: isinstance(n, ast.keyword) and n.arg == "plus", lambda n: ast.keyword(arg="plus", value=ast.Constant(value=True)))), "C47.cgi-keys"),
     ("PATH_INFO not percent-decoded", _e(_dict_value("PATH_INFO", "request.path")), "C47.cgi-keys"),
     ("PATH_INFO decoded to str (utf-8) then handed to to_wsgi_str (assert fails)", _e(replace_expr(lambda n: isinstance(n, ast.keyword) and n.arg == "encoding", lambda n: ast.keyword(arg="encoding", value=ast.Constant(value="utf-8")))), "C47.environ-total"),
+    ("REMOTE_ADDR taken from the Host header", _e(_dict_value("REMOTE_ADDR", "request.host")), "C47.cgi-keys"),
     ("PATH_INFO dropped", _e(_dict_drop("PATH_INFO")), "C47.cgi-keys"),
     ("QUERY_STRING taken from the full uri", _e(_dict_value("QUERY_STRING", "request.uri")), "C47.cgi-keys"),
     ("Content-Type popped without presence test (KeyError when absent)", _e(replace_stmt(lambda st: isinstance(st, ast.If) and "'Content-Type' in" in _src(st.test), lambda st: st.body)), ("C47.environ-total", "C47.headers")),
@@ -438,6 +506,21 @@ MUTANTS = [
     ("response: application header names not lower-cased before the absence tests", _e(replace_expr(lambda n: isinstance(n, ast.Call) and q.call_attr(n) == "lower", lambda n: n.func.value), HR), "C47.response"),
     ("response: Content-Length added unconditionally (duplicates the application's)", _e(replace_stmt(lambda st: isinstance(st, ast.If) and "'content-length' not in" in _src(st.test), lambda st: st.body), HR), "C47.response"),
     ("response: headers forwarded by item assignment (repeated Set-Cookie collapsed)", _e(replace_stmt(lambda st: isinstance(st, ast.Expr) and "header_obj.add" in _src(st), lambda st: [parse_stmt("header_obj[key] = value")]), HR), "C47.response"),
+    ("seeded C47-adv1: header_obj = httputil.HTTPHeaders(headers) (dict-style init, duplicates collapse)", lambda repo: mutate(repo, W, HR, _dict_style_headers), "C47.response"),
+    ("response: header_obj.update(headers) instead of the add() loop", _e(replace_stmt(lambda st: isinstance(st, ast.For) and "header_obj.add" in _src(st), lambda st: [parse_stmt("header_obj.update(headers)")]), HR), "C47.response"),
+    ("response: forwarding loop skips headers already present (first value wins)", _e(replace_stmt(lambda st: isinstance(st, ast.Expr) and "header_obj.add" in _src(st), lambda st: [parse_stmt("if key not in header_obj:\n    header_obj.add(key, value)")]), HR), "C47.response"),
+    ("response: body chunks stripped while collecting", _e(replace_expr(lambda n: isinstance(n, ast.Call) and q.dotted(n.func) == "response.append" and "chunk" in _src(n), lambda n: parse_expr("response.append(chunk.strip())")), HR), "C47.response"),
+    ("response: chunks joined with a newline", _e(replace_expr(lambda n: isinstance(n, ast.Constant) and n.value == b"", lambda n: ast.Constant(value=b"\n")), HR), "C47.response"),
     ("response: status split at every space (reason truncated, unpack error for 3 words)", _e(replace_expr(lambda n: isinstance(n, ast.Call) and q.call_attr(n) == "split" and "status" in _src(n), lambda n: ast.Call(func=n.func, args=n.args[:1], keywords=[])), HR), "C47.response"),
     ("response: Server default tested against the raw header list", _e(replace_expr(lambda n: isinstance(n, ast.Compare) and "'server'" in _src(n), lambda n: parse_expr("'server' not in headers")), HR), "C47.response"),
 ]
+
+
+def _dict_style_headers(root):
+    body = root.body
+    for i, st in enumerate(body):
+        if isinstance(st, ast.Assign) and "HTTPHeaders()" in _src(st) and i + 1 < len(body) and isinstance(body[i + 1], ast.For) and ".add(" in _src(body[i + 1]):
+            lst = _src(body[i + 1].iter)
+            body[i:i + 2] = [parse_stmt("%s = httputil.HTTPHeaders(%s)" % (_src(st.targets[0]), lst))]
+            return True
+    return False
